@@ -256,6 +256,10 @@ def case_line(cid, op, tid, tsexp, *args):
 # ------------------------------------------------------------------ reporting
 def write_replay(pid, seed, payload):
     os.makedirs(REPLAYS, exist_ok=True)
+    payload = dict(payload)
+    payload.setdefault('seed', int(seed))
+    payload.setdefault('tier', os.environ.get('VERIF_TIER', 'quick'))
+    payload.setdefault('rerun', 'VERIF_SEED=%s bin/check %s --tier %s   (deterministic: the same seed regenerates the same cases)' % (seed, pid, os.environ.get('VERIF_TIER', 'quick')))
     path = '%s/%s-%s.json' % (REPLAYS, pid, seed)
     with open(path, 'w') as f:
         json.dump(payload, f, indent=1)
@@ -376,3 +380,23 @@ def ensure_harnesses(cfgs):
             else:
                 exes[cfg] = exe
     return exes, fails
+
+
+def generic_replay(pid, path, mod):
+    """Replay: show the recorded failing input, then re-run the check deterministically with the
+    recorded seed and tier against /repo's current working tree."""
+    d = json.load(open(path))
+    print('replay of %s (%s)' % (path, d.get('kind')))
+    f = d.get('failure')
+    if f:
+        print('failing input: ' + str(f.get('what', f))[:2000])
+    for b in d.get('broken', [])[:5]:
+        print('broken: ' + str(b)[:1000])
+    seed, tier = int(d.get('seed', 1)), d.get('tier', 'quick')
+    os.environ['VERIF_TIER'] = tier
+    os.environ['VERIF_SEED'] = str(seed)
+    os.environ.setdefault('VERIF_EVIDENCE_DIR', CACHE + '/replay-evidence')
+    global EVIDENCE
+    EVIDENCE = os.environ['VERIF_EVIDENCE_DIR']
+    print('re-running: VERIF_SEED=%d bin/check %s --tier %s' % (seed, pid, tier))
+    return mod.run(tier, seed, time.time())
